@@ -44,6 +44,7 @@ func unpack(c ugen.Case, a *ugen.Arena) (err error, panicked any) {
 	if perr != nil {
 		return perr, "harness-packer"
 	}
+	defer a.Enter()()
 	return p.Unpack(r, a.Spelled), nil
 }
 
@@ -52,7 +53,7 @@ func allowPrefixes(c ugen.Case, a *ugen.Arena) []string {
 	for _, al := range c.Allow {
 		p := fsx.Subst(al, a.Vars)
 		if !filepath.IsAbs(p) {
-			out = append(out, filepath.Join(a.Spelled, p), filepath.Join(a.Dst, p))
+			out = append(out, filepath.Join(a.SpelledAbs(), p), filepath.Join(a.Dst, p))
 		} else {
 			out = append(out, filepath.Clean(p))
 		}
@@ -153,7 +154,7 @@ func auditLinks(a *ugen.Arena, allow []string, when string, born map[string]int,
 		}
 		// where the target points when read as text, both for the spelling
 		// Unpack was given and for the physical path
-		lex1 := ugen.LexicalTarget(a.Spelled, l.rel, l.target)
+		lex1 := ugen.LexicalTarget(a.SpelledAbs(), l.rel, l.target)
 		lex2 := ugen.LexicalTarget(a.Dst, l.rel, l.target)
 		allowed := false
 		for _, p := range allow {
@@ -165,7 +166,7 @@ func auditLinks(a *ugen.Arena, allow []string, when string, born map[string]int,
 			ev.Label("escape-allow-listed")
 			continue
 		}
-		if (fsx.Inside(a.Spelled, lex1) || fsx.Inside(a.Dst, lex2)) && ev.IsKnown("c04-link-via-link") {
+		if (fsx.Inside(a.SpelledAbs(), lex1) || fsx.Inside(a.Dst, lex2)) && ev.IsKnown("c04-link-via-link") {
 			// textually inside dst, physically outside by way of another link
 			ev.Excluded("c04-link-via-link")
 			continue
